@@ -257,7 +257,8 @@ def eof_conflate(ctx, lexpr):
     ninj = 0
     res = {}      # (fn path, site block) -> {"codes": set, "ok": bool, "line": n}
     small_code_fns = {f.path for f in lexpr.fns if f.locals and f.locals[0]["ty"].endswith("error::ErrorCode")}
-    inl = lambda a, b: b.path in lex.WRAPPERS or b.path in small_code_fns or (b.crate == lexpr.name and lex.scalar_fn(b))
+    wrappers = set(lex.WRAPPERS) | lex.thin_wrappers(lexpr)
+    inl = lambda a, b: b.path in wrappers or b.path in small_code_fns or (b.crate == lexpr.name and lex.scalar_fn(b))
     for f in lexpr.fns:
         if f.kind == "closure" or not common.in_file(f, "lexpr/src/parse/mod.rs", "lexpr/src/parse/read.rs"):
             continue
